@@ -2,7 +2,8 @@
 Hand model of chibicc's source-position bookkeeping (property C18), written after the code as it is now:
 
   tokenize.c   read_file (final newline), tokenize_file (BOM skip), canonicalize_newline,
-               remove_backslash_newline (with the re-insertion counter `n`), add_line_numbers,
+               remove_backslash_newline (with the re-insertion counter `n`), convert_universal_chars (with unicode.c encode_utf8),
+               add_line_numbers,
                error_at (recount of newlines), verror_at (source line shown), tokenize_file's file_no / input_files
   preprocess.c read_line_marker (`line_delta = N - line_no(directive)`, `display_name`),
                preprocess2 pass-through (`tok->line_delta = tok->file->line_delta; tok->filename = ...`),
@@ -12,7 +13,7 @@ Hand model of chibicc's source-position bookkeeping (property C18), written afte
   codegen.c    `.loc file_no line_no` in gen_expr / gen_stmt, the `.file` table in codegen
 
 A text is a `List Nat` of bytes without the NUL terminator (`p[i+1]` at the last byte reads the terminator, 0).
-Core Lean only.  (Model/Text.lean has the same three phase functions over `BitVec 8`; this file keeps its own copy over
+Core Lean only.  (Model/Text.lean has the same phase functions over `BitVec 8`; this file keeps its own copy over
 `Nat` so that C18 does not depend on the literal tables Text.lean imports.)
 -/
 namespace ChibiVerif.LineNo
